@@ -34,13 +34,16 @@ CFG = {
     "two-two-w0": ("{1, 2}", "two", "two", "two", 0, 0, "TRUE", "{1, 2}", 3, W0),
     "nsw-two-w0": ("{1, 2}", "nsw", "two", "two", 1, 0, "TRUE", "{2}", 3, W0),
     "three-b0": ("{1, 2, 3}", "two", "two", "sw", 0, 1, "FALSE", "{1}", 2, ALL),
+    # three two-way requests, one cancellation, no crash: the smallest instance in which a request written
+    # to a cancelled stream is stranded when the sender re-creates the stream (SenderReconnectStrandsPending)
+    "three-two-nocrash": ("{1, 2, 3}", "two", "two", "two", 0, 1, "FALSE", "{1}", 2, ALL, 0),
     "three-b1-close": ("{1, 2, 3}", "two", "nsw", "two", 1, 1, "TRUE", "{}", 2, ALL),
 }
 DESIGN = {
-    "quick": {"C08": ["two-sw-w0", "two-two-b0-noclose"], "C09": ["two-two-b0-noclose", "stream-two-e2"],
+    "quick": {"C08": ["two-sw-w0", "two-two-b0-noclose"], "C09": ["two-two-b0-noclose", "stream-two-e2", "three-two-nocrash"],
               "C10": ["two-two-b0-noclose", "sw-nsw-b1"], "C12": ["two-two-b0-e2", "sw-nsw-b1"]},
     "thorough": {"C08": ["two-sw-w0", "two-two-w0", "nsw-two-w0", "two-two-b1", "three-b0"],
-                 "C09": ["two-two-b0", "stream-two-b0", "stream-stream-b1", "three-b0"],
+                 "C09": ["two-two-b0", "stream-two-b0", "stream-stream-b1", "three-b0", "three-two-nocrash"],
                  "C10": ["two-two-b0", "two-two-b1", "three-b0"],
                  "C12": ["two-two-b0", "two-two-b1", "stream-two-b0", "sw-nsw-b1", "three-b1-close"]},
 }
@@ -53,11 +56,12 @@ RE_BAD = re.compile(r'<<"BAD", (\d+), (\d+), "(\w+)">>')
 
 
 def channel_cfg(name, devs):
-    reqs, k1, k2, k3, sb, win, close, cancel, me, invs = CFG[name]
+    reqs, k1, k2, k3, sb, win, close, cancel, me, invs = CFG[name][:10]
+    crash = CFG[name][10] if len(CFG[name]) > 10 else 1
     return ("SPECIFICATION Spec\nCONSTANTS\n  Reqs = %s\n  Kind <- KindOf\n  K1 = \"%s\"\n  K2 = \"%s\"\n  K3 = \"%s\"\n"
-            "  SendBuf = %d\n  MaxEpoch = %d\n  MaxCrash = 1\n  CanCancel = %s\n  WithClose = %s\n  ChanCap = 1\n"
+            "  SendBuf = %d\n  MaxEpoch = %d\n  MaxCrash = %d\n  CanCancel = %s\n  WithClose = %s\n  ChanCap = 1\n"
             "  MaxItems = 2\n  Window = %d\n  Devs = %s\nINVARIANTS %s\nCHECK_DEADLOCK FALSE\n"
-            % (reqs, k1, k2, k3, sb, me, cancel, close, win, tla_set(devs), invs))
+            % (reqs, k1, k2, k3, sb, me, crash, cancel, close, win, tla_set(devs), invs))
 
 
 def validate_life(trace, work):
